@@ -51,7 +51,7 @@ func (fg *FnGen) step(fr *Frame, b *ssa.BasicBlock, ins ssa.Instruction, st *Sta
 		return st
 	case *ssa.Alloc:
 		ref := fg.freshConst(fr.prefix+"alloc_"+x.Name(), SInt)
-		fg.assume(Gt(ref, IntLit(0)))
+		fg.assume(Gt(ref, fg.refLimit()))
 		for _, a := range fg.allocs {
 			fg.assume(Neq(ref, a))
 		}
@@ -168,7 +168,7 @@ func (fg *FnGen) step(fr *Frame, b *ssa.BasicBlock, ins ssa.Instruction, st *Sta
 		cp := fg.val(fr, x.Cap)
 		fg.safety("makeslice", reach, And(Ge(ln, IntLit(0)), Ge(cp, ln)), x.Pos())
 		base := fg.freshConst(fr.prefix+"mk_"+x.Name(), SInt)
-		fg.assume(Gt(base, IntLit(0)))
+		fg.assume(Gt(base, fg.refLimit()))
 		for _, a := range fg.allocs {
 			fg.assume(Neq(base, a))
 		}
@@ -193,7 +193,7 @@ func (fg *FnGen) step(fr *Frame, b *ssa.BasicBlock, ins ssa.Instruction, st *Sta
 		return fg.sliceOp(fr, x, st, reach)
 	case *ssa.MakeMap:
 		ref := fg.freshConst(fr.prefix+"map_"+x.Name(), SInt)
-		fg.assume(Gt(ref, IntLit(0)))
+		fg.assume(Gt(ref, fg.refLimit()))
 		for _, a := range fg.allocs {
 			fg.assume(Neq(ref, a))
 		}
@@ -693,6 +693,9 @@ func (fg *FnGen) byteView(s *Term, st *State, reach *Term) *Term {
 	bs := Select(mem, SBase(s))
 	if reach != nil {
 		fg.assumeIf(reach, Ge(StrLen(bs), Add(SOff(s), SCap(s))))
+	} else if !hasBound(s) {
+		// contract evaluation: the backing store of a live byte slice covers off+cap
+		fg.assume(Ge(StrLen(bs), Add(SOff(s), SCap(s))))
 	}
 	return Substr(bs, SOff(s), SLen(s))
 }
@@ -739,9 +742,24 @@ func (fg *FnGen) sliceOp(fr *Frame, x *ssa.Slice, st *State, reach *Term) *State
 			hi = n
 		}
 		fg.safety("slice", reach, And(Ge(lo, IntLit(0)), Le(lo, hi), Le(hi, n)), x.Pos())
-		fg.note("slice of array pointer: backing store not tracked in " + fr.fn.Name())
 		base := fg.freshConst(fr.prefix+"arrslice_"+x.Name(), SInt)
-		fg.assume(Gt(base, IntLit(0)))
+		fg.assume(Gt(base, fg.refLimit()))
+		for _, a := range fg.allocs {
+			fg.assume(Neq(base, a))
+		}
+		fg.allocs = append(fg.allocs, base)
+		if arr != nil {
+			// snapshot of the array content at slicing time (the varargs idiom: stores, then slice, then call)
+			mn, ms, isB := fg.memVar(arr.Elem())
+			if !isB {
+				cn, cs := fg.cellVar(u.Elem())
+				content := Select(fg.lookup(st, cn, cs), xv)
+				fg.set(st, mn, ms, Store(fg.lookup(st, mn, ms), base, content))
+				fg.note("slice of an array pointer is a snapshot of the array (later writes through the array are not seen through the slice)")
+			} else {
+				fg.note("slice of byte-array pointer: backing store not tracked in " + fr.fn.Name())
+			}
+		}
 		fr.vals[x] = MkSlice(base, lo, Sub(hi, lo), Sub(n, lo))
 	default:
 		fr.vals[x] = fg.freshConst(fr.prefix+x.Name(), fg.g.ti.sortOf(x.Type()))
@@ -788,7 +806,7 @@ func (fg *FnGen) convert(fr *Frame, x *ssa.Convert, st *State, reach *Term) *Ter
 	case fok && fb.Info()&types.IsString != 0 && isByteSlice(x.Type()):
 		// []byte(s): fresh backing store holding s
 		base := fg.freshConst(fr.prefix+"conv_"+x.Name(), SInt)
-		fg.assume(Gt(base, IntLit(0)))
+		fg.assume(Gt(base, fg.refLimit()))
 		for _, a := range fg.allocs {
 			fg.assume(Neq(base, a))
 		}
